@@ -1133,6 +1133,18 @@ func specDecodedLen(buf []byte) uint64 { _, n, _ := specScan(buf); return n }
 // The scanner kernel (asmvc: _parse_string_validate_only window obligations against S4): on success the source
 // length L it found is the offset of the closing quote, so the quote lies inside buf; the decoded length never
 // exceeds the source length; needCopy is only ever raised.
+// Serialized tape format (documented in Serialize): per tag the number of value bytes in the values stream and the
+// number of tape words the entry occupies. tagFloatWithFlag is 'e'. Decided by the frame engine (codec#widths-agree):
+// Serialize appends / consumes and Deserialize reads / produces exactly these amounts for every tag, all other tags
+// are rejected by both.
+//@ func (*Serializer).Serialize variant codec
+//@   props C11
+//@   trusted frame: codec#widths-agree
+//@   codec '"','e' values 16 words 2
+//@   codec 'l','u','d' values 8 words 2
+//@   codec '{','[','r' values 8 words 1
+//@   codec 'n','t','f','}',']','N',0x00 values 0 words 1
+
 // The stage-2 machine as the pushdown automaton of the JSON grammar (RFC 8259 with an object/array root; ndjson roots
 // separated by newlines). One line per transition: label, then per structural character consumed (`next`) the set of
 // bytes (hex) under which it is taken, the recognisers called and tape writes made, scope push(kind)/pop, target.
